@@ -27,7 +27,7 @@ def fast():
     print("selftest --fast: z3", z3.get_version_string(), "cvc5 ok, /venv/bin/python ok")
 
 
-def run_mutants(pids):
+def run_mutants(pids, label_re=None):
     sys.path.insert(0, VERIF)
     bad = 0
     for pid in pids:
@@ -35,6 +35,8 @@ def run_mutants(pids):
         muts = getattr(mod, "MUTANTS", [])
         for label, relpath, old, new, expect, *rest in muts:
             only = rest[0] if rest else None
+            if label_re and not __import__('re').search(label_re, label):
+                continue
             tmp = tempfile.mkdtemp(prefix="pyvc_mut_")
             try:
                 dst = os.path.join(tmp, "repo")
@@ -51,16 +53,16 @@ def run_mutants(pids):
                 env = dict(os.environ, PYVC_REPO=dst, PYVC_NO_BOUNDED="1", PYVC_EVIDENCE_DIR=os.path.join(tmp, "ev"))
                 cmd = [os.path.join(VERIF, "check"), pid] + (["--only", only] if only else [])
                 try:
-                    out = subprocess.run(cmd, capture_output=True, text=True, env=env, timeout=900)
+                    out = subprocess.run(cmd, capture_output=True, text=True, env=env, timeout=3000)
                 except subprocess.TimeoutExpired:
-                    print(f"FAIL {pid} {label}: check did not finish within 900 s")
+                    print(f"FAIL {pid} {label}: check did not finish within 3000 s")
                     bad += 1
                     continue
                 refuted = "VIOLATION" in out.stdout
                 undecided = "NOTE undecided" in out.stdout and "unsupported" in out.stdout or "solver unknown" in out.stdout
                 got = "refute" if refuted else ("undecided" if undecided else "hold")
                 ok = got == expect and out.returncode in (0, 1)
-                print(f"{'ok  ' if ok else 'FAIL'} {pid} {label}: expect={expect} got={got} rc={out.returncode}")
+                print(f"{'ok  ' if ok else 'FAIL'} {pid} {label}: expect={expect} got={got} rc={out.returncode}", flush=True)
                 if not ok:
                     bad += 1
                     print(out.stdout[-1500:])
@@ -74,4 +76,9 @@ if __name__ == "__main__":
     if "--fast" in args:
         fast()
         sys.exit(0)
-    sys.exit(1 if run_mutants(args or [f"C{n:02d}" for n in range(1, 21) if os.path.exists(os.path.join(VERIF, "contracts", f"c{n:02d}.py"))]) else 0)
+    label_re = None
+    if "--label" in args:
+        i = args.index("--label")
+        label_re = args[i + 1]
+        del args[i:i + 2]
+    sys.exit(1 if run_mutants(args or [f"C{n:02d}" for n in range(1, 21) if os.path.exists(os.path.join(VERIF, "contracts", f"c{n:02d}.py"))], label_re) else 0)
